@@ -363,6 +363,10 @@ pub fn start_job(command: Arc<Command>) -> (Job, JoinHandle<()>) {
 						}
 					}
 				}
+				else => {
+					trace!("control queue closed and no command running, ending job task");
+					break 'main;
+				}
 				}
 			}
 
